@@ -18,12 +18,12 @@ if prop == 'C02':
     # with a final newline: the rebuilt text must be the input, byte for byte
     # not in RFC layout as written (the body of `assert c;` belongs on its own line; a `let` that is a binding value
     # starts on its own line — the implementation's own output there is finding F-32 of C18), or not one token for Nix
-    NOT_CANON = {('let_empty', None), ('let_empty_set', None), ('assert', None), ('assert_list', None), ('assert_set', None), ('let', 'bindval'), ('let_set', 'bindval'), ('let_list', 'bindval'), ('inherit_in_let', 'bindval')}
+    NOT_CANON = {('let_empty', None), ('let_empty_set', None), ('assert', None), ('assert_list', None), ('assert_set', None), ('let', 'bindval'), ('let_set', 'bindval'), ('let_list', 'bindval'), ('inherit_in_let', 'bindval'), ('let_let', 'bindval'), ('let_let_let', 'bindval')}
     NOT_CANON_ATOMS = {'00', '007', '1e3', 'a or b', '[]', '{}'}
     NOT_CANON_CELLS = lambda a, ctx: (a == '-1' and ctx in ('callarg', 'callarg2', 'import_arg')) or (a.startswith("''") and '\n' in a and ctx == 'formal_default')     # `f -1` is a subtraction; a multi-line default makes the formals multi-line
     for cname, expr in CONSTRUCTS.items():
         for ctx, wrap in CONTEXTS.items():
-            if ctx == 'listitem' and cname in NOT_LIST_ITEMS: continue
+            if ctx == 'lead_ws' or (ctx == 'listitem' and cname in NOT_LIST_ITEMS): continue      # a canonical file does not begin with whitespace
             if (cname, None) in NOT_CANON or (cname, ctx) in NOT_CANON: continue
             p = wrap(expr) + '\n'; cells += 1; judged += 1
             try: r = parse(p).rebuild()
@@ -35,7 +35,7 @@ if prop == 'C02':
         except Exception as e: failing.append(['doc', name, 'canonical', 'top', 'parse/rebuild raises %s on valid input' % type(e).__name__, p, '']); continue
         if r != p: failing.append(['doc', name, 'canonical', 'top', 'canonical source not reproduced byte for byte', p, r])
     for site, p, lp in iter_cells():
-        if site[0] != 'atom' or site[1] in NOT_CANON_ATOMS or NOT_CANON_CELLS(site[1], site[3]): continue
+        if site[0] != 'atom' or site[3] == 'lead_ws' or site[1] in NOT_CANON_ATOMS or NOT_CANON_CELLS(site[1], site[3]): continue
         cells += 1; judged += 1
         try: r = parse(p).rebuild()
         except Exception as e: continue
